@@ -71,6 +71,23 @@ def universe(tier, seed):
     return gs, cand, exhaustive_n, nrand
 
 
+def in_override_list_scope(g):
+    """KF-C01-1: a called rule whose value is a list built by an override (@+:e, or @:e with e a sequence/closure-free group of several
+    items): the engine keeps that list open and splices it into the caller's sequence."""
+    from ..absgrammar import subexps
+    from .c02 import simple_operand
+    called = set()
+    for r in g['rules']:
+        called |= calls(r['exp'])
+    for r in g['rules']:
+        if r['name'] not in called:
+            continue
+        for e in subexps(r['exp']):
+            if e['op'] == 'ovrlist' or (e['op'] == 'ovr' and not simple_operand(e['e'])):
+                return True
+    return False
+
+
 def run(tier):
     ck = Check('C01', tier)
     seed = ck.seed
@@ -85,13 +102,14 @@ def run(tier):
     extra = [list(t) for t in ['abab', 'a b a', 'aab ', ' ab', 'bbbb', 'a  b', 'aaab', 'baba']]
     texts = short + extra
     texts_long = all_texts(['a', 'b', ' '], 4 if tier == 'quick' else 5)
-    jobs, cases = Jobs(), []
+    jobs, cases, allg = Jobs(), [], []
     for i, g in enumerate(gs + rnds):
         ts = texts_long if (i < nexh and len(g['rules']) == 1 and tier == 'thorough') else texts
         starts = ['s'] + ([r['name'] for r in g['rules'][1:]] if i % 3 == 0 else [])
         for st in starts:
             jobs.add(g, make_cfg(chars_of(g, ts)), ts, start=st)
             cases.append(default_case(to_ebnf(g), ts, start=st))
+            allg.append(g)
     r, spec = run_oracle(jobs, timeout=3000)
     ck.add_tlc(r, 'PegSemBatch')
     impl = run_impl(cases)
@@ -112,6 +130,9 @@ def run(tier):
             why = compare(so, ir)
             if t == 7 and j % 400 == 1:
                 ck.sample({'grammar': c['ebnf'], 'start': c['start'], 'text': c['texts'][t], 'spec': so, 'impl': ir})
+            if why and why.startswith('value') and in_override_list_scope(allg[j - 1]) \
+                    and ck.known('KF-C01-1', f"{c['ebnf'].strip()} on {c['texts'][t]!r}"):
+                continue
             if why:
                 ck.violation({'kind': 'parse', 'inputs': {'grammar': c['ebnf'], 'text': c['texts'][t], 'start': c['start']},
                               'expected': so, 'observed': ir, 'why': why, 'spec': 'PegSem!Parse'},
